@@ -1382,9 +1382,41 @@ func specialNs() []uint64 {
 	return out
 }
 
+// rigAvailable: can the generator's core be replaced by a tape in this tree? (the private field
+// names genericPRG / randCore are the instrumentation anchor)
+func rigAvailable() (ok bool) {
+	defer func() {
+		if recover() != nil {
+			ok = false
+		}
+	}()
+	p, err := random.NewChacha20PRG(make([]byte, random.Chacha20SeedLen), nil)
+	if err != nil {
+		return false
+	}
+	g := reflect.ValueOf(p).Elem().FieldByName("genericPRG")
+	if !g.IsValid() {
+		return false
+	}
+	f := g.FieldByName("randCore")
+	return f.IsValid() && f.Kind() == reflect.Interface
+}
+
 func main() {
 	run = ev.Start("C15", "exploration")
 	run.Budget(50*time.Second, 9*time.Minute)
+	if run.Replay == "" && !rigAvailable() {
+		// the tape cannot be installed in this tree (private fields renamed): the enumeration over the
+		// random source is not possible; only the parts that use the real core run
+		run.Set("rule", "the generator's core could not be replaced by a tape in this tree (instrumentation anchor genericPRG.randCore not found): only the determinism part and the auxiliary frequency pass ran")
+		run.Set("tape_injection", "not available in this tree")
+		run.MarkCapped()
+		seedsPart()
+		auxFrequencies()
+		run.Add("evaluations", evals.Load())
+		run.Finish()
+		return
+	}
 	// the tape really is the generator's only source (probe independent of how UintN samples)
 	{
 		rg := newRig()
